@@ -1,8 +1,8 @@
 """C10 — direct connections deliver exactly once, intact, in order (spec/tick/TickImpl.tla, TickTrace.tla)."""
-from vlib import core, tickcheck
+from vlib import core, tickcheck, partick
 
 LEVEL = "model_checking"
-TECHNIQUE = "TLA+ model of ports and the round-robin direct connection explored by TLC; scripts replayed on the real packages; traces monitored by TLC for exactly-once, in-order, intact, right-destination delivery"
+TECHNIQUE = "TLA+ model of ports and the round-robin direct connection explored by TLC; scripts replayed on the real packages; traces monitored by TLC for exactly-once, in-order, intact, right-destination delivery; logs of parallel-engine runs (several goroutines waking one connection) validated by TLC against ParTick.tla"
 LEVEL_TEXT = ("TickImpl.tla (forwardMany, round-robin cursor, back-pressure through CanDeliver, stalling receivers) is explored exhaustively for small "
               "topologies incl. three ports on one connection; every enumerated script and seeded stress systems (one connection, 2-8 ports, capacities 1-4, "
               "hundreds of messages, receivers stalling up to 50 activations, refilling senders) run on real ports and directconnection; TickTrace.tla "
@@ -25,4 +25,6 @@ def run(ck):
     cases, out = tickcheck.run_and_monitor(ck, "stress", stress=40 if q else 1000, max_msgs=300 if q else 2000, random=100 if q else 2000, max_comps=5)
     ck.cov["distinct_nontrivial"] += out["systems"]
     tickcheck.report_cases(ck, cases, {"C10", "C09"}, "stress")
+    # the same statement with handlers on several goroutines: senders of one round wake one idle connection at once (deliveries judged, not ticks)
+    partick.run(ck, systems=12 if q else 120, msgs=120 if q else 200, cfg="ParTick_deliveries.cfg")
     ck.cov["exhaustive"] = True
